@@ -354,6 +354,17 @@ def run(rec, cfg):
                         P.get_rand_vars(num, ex)
                     except Exception:
                         pass
+            if i % 7 == 0:
+                # whole-pool requests, consumed the way the generators consume them (pop), then the
+                # ordinary calls that follow in this loop must still be served
+                for args, kw in (((3,), {"common_variables": True}), ((24,), {}), ((2,), {"common_variables": True}), ((23,), {})):
+                    try:
+                        got = P.get_rand_vars(*args, **kw)
+                        while got:
+                            got.pop()
+                        rec.arm("helper:get_rand_vars:result-consumed")
+                    except Exception:
+                        pass
             P.split_in_two_random(rng.randint(0, 40))
             try:
                 t = P.get_rand_term_templates(rng.randint(1, 6), exponent_probability=rng.choice([0, 0.5, 1.0]), common_variables=rng.random() < 0.3)
